@@ -2,6 +2,7 @@ package rules
 
 import (
 	"fmt"
+	"go/types"
 
 	"golang.org/x/tools/go/ssa"
 
@@ -148,4 +149,74 @@ func c20r6(p *model.Prog, r *report.Result) {
 			r.Check(dom, "C20.R6", fkey(fn, "publish-to-group", "after-conn-setup"), p.InstrPos(o), "connection configured first", "the session is handed to the group before modConnProps() ran: the group's fan-out goroutine calls connection.Write while the session goroutine runs ModWriteChanSize / ModWriteTimeoutMs on the same connection (data race; and for that window the writes are synchronous under Group.mutex)")
 		}
 	}
+}
+
+// c03r8: an RTSP connection carries one publisher or one subscriber.
+func c03r8(p *model.Prog, r *report.Result) {
+	r.Rule("C03.R8", "in rtsp.ServerCommandSession a new PubSession / SubSession is stored into the connection's pubSession / subSession field only behind tests that both fields are nil: a second ANNOUNCE (or DESCRIBE) on a connection cannot overwrite the session the group already holds - the connection's teardown reports exactly the sessions that were accepted")
+	pubF := p.Field("pkg/rtsp", "ServerCommandSession", "pubSession")
+	subF := p.Field("pkg/rtsp", "ServerCommandSession", "subSession")
+	n := 0
+	for _, fn := range lalFuncsIn(p, "pkg/rtsp") {
+		if recvName(topFn(fn)) != "ServerCommandSession" {
+			continue
+		}
+		for _, f := range []*types.Var{pubF, subF} {
+			for _, st := range model.FieldStores(fn, f) {
+				if model.IsNilConst(st.Val) {
+					continue
+				}
+				n++
+				nilEdge := func(ff *types.Var) bool {
+					return model.GuardedBy(st, func(c ssa.Value, pol bool) bool {
+						x, nonNil, ok := nilTestOf(c)
+						return ok && model.LoadedField(x) == ff && nonNil != pol
+					})
+				}
+				r.Check(nilEdge(pubF) && nilEdge(subF), "C03.R8", fkey(fn, "link", f.Name()), p.InstrPos(st), "stored only when the connection has no session yet", "a new session is linked to the connection without testing that it has none yet: a second ANNOUNCE overwrites the accepted publisher (refused as duplicate, the field ends up nil), the connection's teardown never reports the first one - the group keeps a dead input for ever, no pub_stop, every later publisher refused")
+			}
+		}
+	}
+	if n < 2 {
+		r.Bad("C03.R8", "floor", "", fmt.Sprintf("only %d session links found in ServerCommandSession", n))
+	}
+}
+
+// c03r9: a relay pull that was refused in its describe callback does not hand its SDP to the group.
+func c03r9(p *model.Prog, r *report.Result) {
+	r.Rule("C03.R9", "in rtsp.PullSession.OnDescribeResponse the call baseInSession.InitWithSdp (which delivers the SDP to the observer, i.e. the group) lies behind a test that depends on state PullSession.dispose() sets, evaluated after the onDescribeResponse() callback: the callback is where the group refuses and disposes a pull that was overtaken by a publisher, and a refused input must not overwrite the accepted input's SDP / re-initialise its remuxer")
+	fn := p.Method("pkg/rtsp", "PullSession", "OnDescribeResponse")
+	disp := p.Method("pkg/rtsp", "PullSession", "dispose")
+	initSdp := p.MethodObj("pkg/rtsp", "BaseInSession", "InitWithSdp")
+	// fields of PullSession whose address dispose() (or its closure) uses for a store / a Store() call
+	set := map[*types.Var]bool{}
+	for _, f := range model.WithAnons(disp) {
+		model.EachInstr(f, func(in ssa.Instruction) {
+			switch x := in.(type) {
+			case *ssa.Store:
+				if fv := model.FieldOf(x.Addr); fv != nil {
+					set[fv] = true
+				}
+			case ssa.CallInstruction:
+				o := model.CalleeObj(x.Common())
+				if o != nil && o.Name() == "Store" && len(x.Common().Args) > 0 {
+					if fv := model.FieldOf(x.Common().Args[0]); fv != nil {
+						set[fv] = true
+					}
+				}
+			}
+		})
+	}
+	calls := model.CallsTo(fn, initSdp)
+	if len(calls) != 1 {
+		r.Bad("C03.R9", fkey(fn, "refused-pull", "floor"), p.Pos(fn.Pos()), "InitWithSdp call not found in OnDescribeResponse")
+		return
+	}
+	guarded := model.GuardedBy(calls[0], func(c ssa.Value, pol bool) bool {
+		return model.DependsOn(c, func(v ssa.Value) bool {
+			fa, ok := v.(*ssa.FieldAddr)
+			return ok && set[model.FieldOf(fa)]
+		})
+	})
+	r.Check(guarded && len(set) > 0, "C03.R9", fkey(fn, "refused-pull", "sdp-not-delivered"), p.InstrPos(calls[0]), "SDP delivered only when the session was not disposed in the callback", "the SDP of a relay pull is delivered to the group although the describe callback may just have refused and disposed that pull (a publisher took the stream meanwhile): group.sdpCtx and the remuxer of the accepted input are overwritten with the refused input's description")
 }
